@@ -225,6 +225,30 @@ func stmtCount(rel, recv, fn, kind string) int64 {
 	return n
 }
 
+// returnsOf: the printed result expressions of the function's return statements, in source
+// order, joined with " | " (nested function literals excluded). "MISSING" if the function is absent.
+func returnsOf(rel, recv, fn string) string {
+	fd := findFunc(rel, recv, fn)
+	if fd == nil {
+		return "MISSING"
+	}
+	var out []string
+	ast.Inspect(fd.Body, func(x ast.Node) bool {
+		switch v := x.(type) {
+		case *ast.ReturnStmt:
+			var rs []string
+			for _, r := range v.Results {
+				rs = append(rs, src(r))
+			}
+			out = append(out, strings.Join(rs, ", "))
+		case *ast.FuncLit:
+			return false
+		}
+		return true
+	})
+	return strings.Join(out, " | ")
+}
+
 // firstPos: byte offset of the first occurrence of a source fragment inside a function body
 // (-1 if absent). Used for "A happens before B" facts.
 func firstPos(rel, recv, fn, frag string) int {
@@ -338,6 +362,9 @@ func main() {
 	addOp("op_modify_inmem_vallen", "txn.go", "Txn", "modify", "len(e.Value)", "valueThreshold()")
 	addOp("op_hasConflict_ts", "txn.go", "oracle", "hasConflict", "committedTxn.ts", "txn.readTs")
 	addOp("op_cleanup_ts", "txn.go", "oracle", "cleanupCommittedTransactions", "txn.ts", "maxReadTs")
+	// oracle.discardAtOrBelow: what compactions may discard (managed: discardTs; normal: read watermark)
+	facts = append(facts, fact{"ret_discardAtOrBelow", "op", returnsOf("txn.go", "oracle", "discardAtOrBelow"), "txn.go:oracle.discardAtOrBelow [return expressions, in order]"})
+	facts = append(facts, fact{"ord_discardAtOrBelow_managed_first", "op", before("txn.go", "oracle", "discardAtOrBelow", "o.isManaged", "o.readMark.DoneUntil()"), "txn.go:oracle.discardAtOrBelow [managed test vs read-mark return]"})
 	// compaction filter (levels.go subcompact)
 	addOp("op_subcompact_version_discard", "levels.go", "levelsController", "subcompact", "version", "discardTs")
 	addOp("op_subcompact_numversions", "levels.go", "levelsController", "subcompact", "numVersions", "NumVersionsToKeep")
